@@ -43,6 +43,7 @@ type FaultCase struct {
 	Knobs  ExecKnobs   `json:"knobs"`
 	Faults []FaultSpec `json:"faults,omitempty"` // explicit fault set (replay / minimised); empty = enumerate
 	Double int         `json:"double,omitempty"` // number of sampled double faults
+	AllJ   bool        `json:"allj,omitempty"`   // fail streaming calls after EVERY j <= delivered (thorough tier)
 }
 
 type faultHarness struct{}
@@ -70,6 +71,9 @@ func (h *faultHarness) Gen(r *Rand, tier string, clean bool) any {
 	c.Stmt = genStmt(r, u, graphNames(c.Graphs), o, []int{40, 10, 10, 4, 4, 14, 10, 4})
 	c.Text = c.Stmt.Text()
 	c.Double = r.Intn(3)
+	if tier == "thorough" {
+		c.Double, c.AllJ = r.Intn(6), true
+	}
 	return c
 }
 
@@ -220,6 +224,11 @@ func (h *faultHarness) Run(t *testing.T, ci any) *Outcome {
 			js := map[int]bool{}
 			for _, j := range []int{1, 2, rec.Delivered / 2, rec.Delivered - 1, rec.Delivered} {
 				if j >= 1 && j <= rec.Delivered && !js[j] {
+					js[j] = true
+				}
+			}
+			if c.AllJ {
+				for j := 1; j <= rec.Delivered; j++ {
 					js[j] = true
 				}
 			}
